@@ -590,30 +590,64 @@ def add_linear(rng, d):
     a, b = rng.choice([2, -3, 0.5, 4]), rng.choice([1, -1, 0.25, 3])
     y1 = [[float.fromhex(x) for x in r] for r in d["data"]]
     y2 = [[dyad(rng, -100, 100, 8) for _ in range(n)] for _ in d["data"]]
-    d1 = dict(d, claims=[])
-    d2 = dict(d, claims=[], data=[hexs(r) for r in y2])
-    r1, _, _ = run_case(d1)
-    r2, _, _ = run_case(d2)
     comb = [[a * u + b * v for u, v in zip(p, q)] for p, q in zip(y1, y2)]
-    dd = dict(d, data=[hexs(r) for r in comb], claims=["linear"], linear={"a": a, "b": b, "r1": r1, "r2": r2})
+    dd = dict(d, data=[hexs(r) for r in comb], claims=["linear"],
+              linear={"a": a, "b": b, "y1": [hexs(r) for r in y1], "y2": [hexs(r) for r in y2]})
     dd.pop("planted", None)
     dd["class"] = d["class"] + "/linear"
     return dd
 
 
-def make_case(d, rng=None):
+def prepare(d, rng=None, force=False):
+    """complete a case description with what depends on the implementation: event times in ps, the
+    partner run (same events as a coded series), the runs on the two summands"""
     if d["kind"] in ("eta_ev", "ets_ev") and "times_ps" not in d:
         finish_events(rng, d, series_dt_ps(d))
-    if "equiv" in d.get("claims", []) and "partner" not in d:
-        # the same analysis with the events given as a coded series
+    if "equiv" in d.get("claims", []) and (force or "partner" not in d):
         pd = dict(d, kind="eta" if d["kind"] == "eta_ev" else "ets", events=d["events_coded"], ev2d=False, claims=[])
         d["partner"], _, _ = run_case(pd)
+    if "linear" in d.get("claims", []) and (force or "r1" not in d["linear"]):
+        lin = d["linear"]
+        lin["r1"], _, _ = run_case(dict(d, claims=[], data=lin["y1"]))
+        lin["r2"], _, _ = run_case(dict(d, claims=[], data=lin["y2"]))
+
+
+def make_case(d, rng=None):
+    prepare(d, rng)
     o, dt_ps, calls = run_case(d)
     coq = case_coq(d, o, dt_ps, calls)
     rp = {"input": d, "observed": o, "dt_ps": dt_ps}
     c = Case(coq or "", rp, d.get("class", d["kind"]), nontrivial=(o["t"] in ("arr", "et", "design")))
     c.in_k = coq is not None
     return c
+
+
+def retry_killed(ctx, prefix, kbad, shard, ncases):
+    """a shard whose coqc ended without any Coq error message (killed by the OOM killer on an overloaded
+    machine) is compiled once more, alone; a real disagreement always carries Coq's error text"""
+    kbad = set(kbad)
+    for b in list(ctx.broken):
+        name = b["lemma"]
+        if b["kind"] != "K" or not name.startswith(prefix + "_"):
+            continue
+        det = b["detail"]
+        if "Error" in det or "TIMEOUT" in det:
+            continue
+        si = int(name.split(".v")[0].split("_")[1])
+        path = ctx.build / ("%s_%d.v" % (prefix, si))
+        if not path.exists():
+            continue
+        r = ctx.coqc("%s_%d" % (prefix, si), path.read_text(), timeout=1500)
+        if not r.ok and "Error" not in r.out and "TIMEOUT" not in r.out:
+            r = ctx.coqc("%s_%d" % (prefix, si), path.read_text(), timeout=1500)
+        if r.ok:
+            ctx.broken.remove(b)
+            ctx.obligations = [(k, n, True if (k == "K" and n == name) else ok) for k, n, ok in ctx.obligations]
+            kbad -= set(range(si * shard, min(ncases, (si + 1) * shard)))
+            ctx.notes.append("%s: coqc was killed without output on the first attempt; recompiled alone, lemma holds" % name)
+        else:
+            b["detail"] = (r.out or det)[-1500:]
+    return kbad
 
 
 def corpus_inputs():
@@ -625,13 +659,33 @@ def corpus_inputs():
     return out
 
 
+def gen_flag_table():
+    """G: which getters read the zscore / correct_baseline flags, by reflection on their code objects"""
+    import nitime.analysis.event_related as er
+    rows = []
+    for n in ["FIR", "eta", "ets", "et_data", "xcorr_eta"]:
+        d = er.EventRelatedAnalyzer.__dict__.get(n)
+        f = getattr(d, "getter", None) or getattr(d, "fget", None) or d
+        names = set(getattr(getattr(f, "__code__", None), "co_names", ()))
+        rows.append((n, "_zscore" in names, "_correct_baseline" in names))
+    src = ("From Coq Require Import List Bool String.\nFrom NT Require Import Lists C19K.\nImport ListNotations.\n"
+           "Open Scope string_scope.\n"
+           "Definition gen_flags : list flag_row := %s.\n"
+           "Lemma flag_table_matches : flag_table_ok gen_flags = true.\nProof. vm_compute. reflexivity. Qed.\n"
+           % llit(['("%s", %s, %s)' % (n, blit(z), blit(c)) for n, z, c in rows]))
+    return src, rows
+
+
 def run(ctx):
     core.import_nitime()
     ctx.check_props()
+    src, rows = gen_flag_table()
+    ctx.check_gen("G_flags", src, ["flag_table_matches"])
+    ctx.extra["flag_table"] = rows
     rng = ctx.rng
     big = ctx.scale(20, 32)
     inputs = corpus_inputs()
-    nf, na, ne, nd = ctx.scale(260, 2400), ctx.scale(130, 1200), ctx.scale(130, 1200), ctx.scale(120, 600)
+    nf, na, ne, nd = ctx.scale(260, 1400), ctx.scale(130, 700), ctx.scale(130, 700), ctx.scale(120, 400)
     for _ in range(nf):
         d = gen_fir(rng, big)
         inputs.append(d)
@@ -652,7 +706,9 @@ def run(ctx):
         inputs.append(gen_design(rng, big))
     cases = [make_case(d, rng) for d in inputs]
     kcases = [c for c in cases if c.in_k]
-    kbad = ctx.check_cases("K", HEADER, kcases, "check", shard=ctx.scale(60, 160), case_type="kcase", timeout=1500)
+    shard = ctx.scale(60, 160)
+    kbad = ctx.check_cases("K", HEADER, kcases, "check", shard=shard, case_type="kcase", timeout=1500)
+    kbad = retry_killed(ctx, "K", kbad, shard, len(kcases))
     bad = {id(kcases[i]) for i in kbad}
     for c in cases:
         if not c.in_k:
@@ -680,6 +736,13 @@ def run(ctx):
                          "edge placements (cut responses, wrap of np.roll, IndexError/ValueError), planted dyadic responses "
                          "or noise data, both flags; non-trivial = the call returned an estimate" % big)
     return ctx.finish(
+        explanation=("P: Coq theorems over an executable model of fir_design_matrix / fir / EventRelatedAnalyzer "
+                     "(FIR, eta, ets, et_data; coded series and event times) for all lengths, placements, type counts, "
+                     "offsets: design_apply, least-squares recovery for an abstract pinv, exact average / zero standard "
+                     "error for separated events, ordering by sorted code, equality of the two event representations, "
+                     "linearity, t0 = offset*dt; negative codes refuted with a witness. K: every generated call is "
+                     "evaluated on the model by the Coq kernel and compared with the implementation's output. "
+                     "Search: planted responses vs outputs."),
         trusted=["scipy.linalg.pinv is a library oracle: its recorded output is handed to the model as data (contract in "
                  "the theorems: pinv(G) G = I for non-singular G)",
                  "scipy.stats.sem / np.mean are compared through their defining formulas (squared standard error) with "
@@ -695,6 +758,7 @@ def replay(ctx, path):
     d = json.loads(open(path).read())
     d = d.get("case") or d
     inp = d["input"]
+    prepare(inp, ctx.rng, force=True)
     o, dt_ps, _ = run_case(inp)
     f = oracle(inp, o, dt_ps)
     print(json.dumps({"kind": inp["kind"], "class": inp.get("class"), "observed": o,
